@@ -170,7 +170,16 @@ def _world(ctx, cfg):
     ns.polyfit = K.polyfit
     ns.histogram_bin_edges = K.histogram_bin_edges
     ns.histogram = K.histogram
-    world.rebind(P, np=ns, nnls=K.nnls, stats=K.stats(), qvality=K.qvality())
+    real_pi0 = P.__dict__.get("_real_estimate_pi0_by_slope") or P.estimate_pi0_by_slope
+    P.__dict__["_real_estimate_pi0_by_slope"] = real_pi0
+    K.pi0s = []
+
+    def pi0_recorder(*a, **k):
+        r = real_pi0(*a, **k)
+        K.pi0s.append(r)
+        return r
+    world.rebind(P, np=ns, nnls=K.nnls, stats=K.stats(), qvality=K.qvality(), estimate_pi0_by_slope=pi0_recorder)
+    Q.__dict__["estimate_pi0_by_slope"] = pi0_recorder
     assumed = [0]
 
     def div_hook(x, y):
@@ -219,6 +228,19 @@ def _structure(zs, out, lo_only=False, what="pep"):
     return props
 
 
+def _pi0_props(K):
+    """Lemma behind 'finite': the divisions assumed non-zero above are non-zero only if the proportion of
+    incorrect targets handed on is strictly positive (a zero pi0 makes the NNLS right-hand side zero, the
+    fit identically zero and the rescaling 0/0). Trusted for the rest: for a non-zero right-hand side the
+    NNLS fit is not identically zero."""
+    import z3
+    from symx import core
+    props = []
+    for i, p in enumerate(K.pi0s):
+        props.append(("pi0_estimate_%d_strictly_positive" % i, (core._z(p) > 0) if isinstance(p, core.Sym) else z3.BoolVal(p > 0)))
+    return props
+
+
 def sym_pep(ctx, cfg):
     import z3
     from symx import symnp, core
@@ -243,7 +265,7 @@ def sym_pep(ctx, cfg):
         core.DIV_HOOK[0] = None
     ctx.notes.append(("assumed_nonzero_denominators", assumed[0]))
     ctx.notes.append(("kernel_calls", len(K.calls)))
-    return PathOutcome(_structure(zs, out), inputs, None)
+    return PathOutcome(_structure(zs, out) + _pi0_props(K), inputs, None)
 
 
 def sym_qvalues(ctx, cfg):
@@ -277,7 +299,7 @@ def sym_qvalues(ctx, cfg):
     finally:
         core.DIV_HOOK[0] = None
     ctx.notes.append(("assumed_nonzero_denominators", assumed[0]))
-    return PathOutcome(_structure(zs, out, lo_only=True, what="q"), inputs, None)
+    return PathOutcome(_structure(zs, out, lo_only=True, what="q") + _pi0_props(K), inputs, None)
 
 
 CONTRACTS = ["scipy.optimize.nnls -> arbitrary d >= 0 (argument list checked against the installed scipy's signature)",
@@ -405,6 +427,15 @@ def _embeddings(inp, every):
         yield s[o3].astype(float), t[o3], "240 realistic PSMs sorted worst first"
         o4 = np.argsort(-s, kind="stable")
         yield s[o4].astype(float), t[o4], "240 realistic PSMs sorted best first"
+        # very clean target sets (pi0 near 0): every target correct / three stragglers among the decoys
+        for stragglers in (0, 3):
+            rc = np.random.default_rng(777 + stragglers)
+            tc = np.arange(m) % 2 == 0
+            sc2 = np.where(tc, rc.normal(6.0, 1.0, m), rc.normal(0.0, 1.0, m))
+            if stragglers:
+                sc2[np.flatnonzero(tc)[:stragglers]] = rc.normal(-1.5, 0.3, stragglers)
+            oc = rc.permutation(m)
+            yield sc2[oc].astype(float), tc[oc], "240 PSMs with a very clean target set (%d incorrect targets), random order" % stragglers
         for first_t in (tg[0], not tg[0]):
             for desc, word in ((True, "best first"), (False, "worst first")):
                 key = -s if desc else s
